@@ -454,9 +454,9 @@ func genC10(rng *hx.Rng, tier string, w *hx.Writer) error {
 	if tier == "thorough" {
 		nProg = 1500
 	}
-	genPointMachine(rng, w, Bn.G1(), GrpG1, "G1", q, nProg, "group-law-wrong", 8)
-	genPointMachine(rng, w, Bn.G2(), GrpG2, "G2", q, nProg, "group-law-wrong", 9)
-	genPointMachine(rng, w, Bn.GT(), -1, "GT", q, nProg/6, "group-law-wrong", 0)
+	genPointMachine(rng, w, Bn.G1(), GrpG1, "G1", q, nProg, "group-law-wrong", "bn", 8)
+	genPointMachine(rng, w, Bn.G2(), GrpG2, "G2", q, nProg, "group-law-wrong", "bn", 9)
+	genPointMachine(rng, w, Bn.GT(), -1, "GT", q, nProg/6, "group-law-wrong", "-", 0)
 	// group elements are values: a copy (Clone) keeps its value when the original is updated in place,
 	// and the identity stays the identity after a point obtained from Null() has been used as an
 	// accumulator - in G1, G2 and GT
